@@ -303,6 +303,24 @@ func singularScenario(rng *rand.Rand) *scenario {
 	return sc
 }
 
+// swapScenario: the same pair of slices as singularScenario plus a third damaged slice, with recovery
+// blocks 0, 255 and 256 surviving: the system is solvable, but elimination meets a zero pivot in
+// the second column and has to swap rows (both of the matrix and of the wide right-hand side).
+func swapScenario(rng *rand.Rand) *scenario {
+	sc := singularScenario(rng)
+	sc.r = 257
+	base := sc.damage
+	sc.desc = "zero pivot, solvable: " + sc.desc + " + slice 150, exps {0,255,256}"
+	sc.damage = func(rng *rand.Rand, sc *scenario, disk map[string][]byte) []string {
+		d := base(rng, sc, disk)
+		x := append([]byte{}, disk["only.dat"]...)
+		x[150*4+2] ^= 0x3C
+		disk["only.dat"] = x
+		return append(d, "destroy slice 150")
+	}
+	return sc
+}
+
 func runP2Big(args []string) error {
 	c := newCommon("p2big")
 	count := c.fs.Int("n", 0, "number of scenarios (0 = tier default)")
@@ -325,6 +343,8 @@ func runP2Big(args []string) error {
 		var sc *scenario
 		if idx == 3 {
 			sc = singularScenario(rng)
+		} else if idx == 6 {
+			sc = swapScenario(rng)
 		} else {
 			sc = makeScenario(rng, idx, thorough)
 		}
@@ -344,6 +364,7 @@ func runScenario(c *common, lg *tracelog.Log, rng *rand.Rand, idx int, sc *scena
 	}
 	a.Others["readme.txt"] = []byte("bystander")
 	a.Others["other/deep/file.bin"] = []byte{9, 9, 9}
+	a.Others["arch.stray.par2"] = []byte{} // matches <base>.*.par2 but holds no packet of the set
 	{
 		// what Create did: it may only create <base>.par2 and <base>.volNN+MM.par2
 		unexpected := []string{}
